@@ -1,147 +1,159 @@
 import Vflow.Model.Sflow
+import Vflow.Model.IpText
+import Vflow.Model.JsonOut
+import Vflow.Spec.Json
 /-!
-# `json.Marshal(*SFDatagram)` as `encoding/json` renders it
+# `json.Marshal(*SFDatagram)` as `encoding/json` renders it — as a JSON tree
 
-Struct fields in declaration order, map keys sorted, `[]byte` as base64, `net.IP` through
-`MarshalText` (dotted quad, RFC 5952 text, IPv4-mapped addresses as dotted quad), the MAC and
-address strings as `fmt.Sprintf` / `net.IP.String` produce them.  `ColTime` is rendered as 0
-(the harness zeroes it on the Go side).  Used by the driver only.
+The datagram is first mapped to a `Vflow.Spec.Json` tree (`sflowTree`), and the published text is the
+compact rendering `Spec.render (sflowTree d)` (`sflowJson?`).  Struct fields in declaration order,
+map keys sorted as `encoding/json` sorts them, `[]byte` as a base64 string, `net.IP` through
+`MarshalText` (empty string for no address, dotted quad, RFC 5952 text, IPv4-mapped addresses as dotted
+quad; any other length is a marshal error: nothing is published), the MAC and address *strings* as
+`fmt.Sprintf` / `net.IP.String` produce them (address strings pass through `encoding/json`'s string
+escaping, which is the identity on address text), numbers as their decimal text, `null` for absent
+layers.  `ColTime` is rendered as 0 (the harness zeroes it on the Go side).
+
+That this rendering equals what `encoding/json` (library code) emits is established by the
+correspondence (kinds `sflow`, `sflowf`, `dissect`), not proved; what is proved
+(`Vflow.Props.C05`) is that it is valid JSON deriving exactly `sflowTree d`.
 -/
 namespace Vflow.Sflow.Json
-open Vflow Vflow.Sflow Vflow.Packet
+open Vflow Vflow.Sflow Vflow.Packet Vflow.Spec
 
-def hexDigits : Array Char := "0123456789abcdef".toList.toArray
-def hex2 (n : Nat) : String := String.ofList [hexDigits[(n / 16) % 16]!, hexDigits[n % 16]!]
-def hexNoLead (n : Nat) : String := String.ofList (Nat.toDigits 16 n)
-def at! (b : Bytes) (i : Nat) : Nat := (b.getD i 0).toNat
+/-! ## builders -/
 
-def ip4String (b : Bytes) : String := ".".intercalate (b.map fun x => toString x.toNat)
+/-- the octets of a key name -/
+def kb (s : String) : Bytes := s.toUTF8.toList
 
-/-- groups of an IPv6 address -/
-def groups (b : Bytes) : List Nat := (List.range 8).map fun i => at! b (2*i) * 256 + at! b (2*i+1)
+def listOf : List Json → JList
+  | [] => .nil
+  | x :: xs => .cons x (listOf xs)
 
-/-- longest run of zero groups (length ≥ 2), leftmost on ties: (start, len) -/
-def longestZeroRun (g : List Nat) : Nat × Nat := Id.run do
-  let arr := g.toArray
-  let mut best := (0, 0)
-  let mut i := 0
-  while i < 8 do
-    let mut j := i
-    while j < 8 && arr[j]! == 0 do j := j + 1
-    let l := j - i
-    if l ≥ 2 && l > best.2 then best := (i, l)
-    i := if j == i then i + 1 else j
-  return best
+def membersOf : List (String × Json) → JMembers
+  | [] => .nil
+  | (k, v) :: ms => .cons (kb k) v (membersOf ms)
 
-def ip6String (b : Bytes) : String :=
-  let g := groups b
-  let (s, l) := longestZeroRun g
-  if l == 0 then ":".intercalate (g.map hexNoLead) else
-  ":".intercalate ((g.take s).map hexNoLead) ++ "::" ++ ":".intercalate ((g.drop (s + l)).map hexNoLead)
+/-- an object with the given members, in order -/
+def obj (fields : List (String × Json)) : Json := .obj (membersOf fields)
 
-def isV4Mapped (b : Bytes) : Bool :=
-  b.length == 16 && (b.take 10).all (· == 0) && at! b 10 == 255 && at! b 11 == 255
+/-- a JSON number carrying the exact decimal text of `n` -/
+def num (n : Nat) : Json := .num (natDigits n)
 
-/-- `net.IP.String` -/
-def ipString (b : Bytes) : String :=
-  if b.length == 0 then "<nil>" else
-  if b.length == 4 then ip4String b else
-  if b.length == 16 then (if isV4Mapped b then ip4String (b.drop 12) else ip6String b) else
-  "?" ++ "".intercalate (b.map fun x => hex2 x.toNat)
+/-- an object of numbers: the i-th name shows the i-th value -/
+def numObj (names : List String) (vals : List Nat) : Json :=
+  obj ((names.zip vals).map fun (n, v) => (n, num v))
 
-/-- `net.IP.MarshalText` as a JSON string; `none` = marshal error -/
-def ipJson (b : Bytes) : Option String :=
-  if b.length == 0 then some "\"\"" else
-  if b.length == 4 || b.length == 16 then some ("\"" ++ ipString b ++ "\"") else none
+/-! ## leaves -/
 
-def b64chars : Array Char := "ABCDEFGHIJKLMNOPQRSTUVWXYZabcdefghijklmnopqrstuvwxyz0123456789+/".toList.toArray
-def base64 : Bytes → String
-  | [] => ""
+/-- the standard base64 alphabet -/
+def b64 (n : Nat) : UInt8 :=
+  let m := n % 64
+  if m < 26 then UInt8.ofNat (65 + m) else if m < 52 then UInt8.ofNat (71 + m)
+  else if m < 62 then UInt8.ofNat (m - 4) else if m = 62 then 43 else 47
+
+/-- `base64.StdEncoding` (how `encoding/json` renders a `[]byte`) -/
+def base64 : Bytes → Bytes
+  | [] => []
   | [a] => let n := a.toNat * 65536
-           String.ofList [b64chars[n / 262144]!, b64chars[(n / 4096) % 64]!, '=', '=']
+           [b64 (n / 262144), b64 (n / 4096), 61, 61]
   | [a, b] => let n := a.toNat * 65536 + b.toNat * 256
-              String.ofList [b64chars[n / 262144]!, b64chars[(n / 4096) % 64]!, b64chars[(n / 64) % 64]!, '=']
+              [b64 (n / 262144), b64 (n / 4096), b64 (n / 64), 61]
   | a :: b :: c :: t => let n := a.toNat * 65536 + b.toNat * 256 + c.toNat
-              String.ofList [b64chars[n / 262144]!, b64chars[(n / 4096) % 64]!, b64chars[(n / 64) % 64]!, b64chars[n % 64]!] ++ base64 t
+              b64 (n / 262144) :: b64 (n / 4096) :: b64 (n / 64) :: b64 n :: base64 t
 
-/-- `fmt.Sprintf("%0.2x:…")` of six octets; the empty string when not set -/
-def macString (b : Bytes) : String :=
-  if b.length == 0 then "" else ":".intercalate (b.map fun x => hex2 x.toNat)
+/-- a `[]byte` field -/
+def bytesLeaf (b : Bytes) : Json := .str (base64 b)
 
-def objJson (fields : List (String × String)) : String :=
-  "{" ++ ",".intercalate (fields.map fun (n, v) => s!"\"{n}\":{v}") ++ "}"
+/-- a `net.IP` field (`MarshalText`): the empty string for no address, else `net.IP.String` -/
+def ipLeaf (b : Bytes) : Json := .str (if b.length == 0 then [] else ipBytes b)
 
-def numObj (names : List String) (vals : List Nat) : String :=
-  objJson ((names.zip vals).map fun (n, v) => (n, toString v))
+/-- `MarshalText` succeeds (an address of 0, 4 or 16 octets) -/
+def ipOk (b : Bytes) : Bool := b.length == 0 || b.length == 4 || b.length == 16
 
-def l2Json (d : L2) : String :=
-  objJson [("SrcMAC", s!"\"{macString d.srcMAC}\""), ("DstMAC", s!"\"{macString d.dstMAC}\""),
-           ("Vlan", toString d.vlan), ("EtherType", toString d.etherType)]
+/-- a `string` field holding `net.IP.String()`: through `encoding/json`'s string escaping -/
+def ipStringLeaf (b : Bytes) : Json := .str (escString (ipBytes b))
 
-def l3Json : L3 → String
-  | .none => "null"
-  | .v4 h => objJson [("Version", toString h.version), ("TOS", toString h.tos), ("TotalLen", toString h.totalLen),
-      ("ID", toString h.id), ("Flags", toString h.flags), ("FragOff", toString h.fragOff), ("TTL", toString h.ttl),
-      ("Protocol", toString h.protocol), ("Checksum", toString h.checksum),
-      ("Src", s!"\"{ipString h.src}\""), ("Dst", s!"\"{ipString h.dst}\"")]
-  | .v6 h => objJson [("Version", toString h.version), ("TrafficClass", toString h.trafficClass),
-      ("FlowLabel", toString h.flowLabel), ("PayloadLen", toString h.payloadLen), ("NextHeader", toString h.nextHeader),
-      ("HopLimit", toString h.hopLimit), ("Src", s!"\"{ipString h.src}\""), ("Dst", s!"\"{ipString h.dst}\"")]
+/-- a `string` field holding `fmt.Sprintf("%0.2x:…")` of the MAC octets; empty when not set -/
+def macLeaf (b : Bytes) : Json := .str (macBytes b)
 
-def l4Json : L4 → String
-  | .none => "null"
-  | .icmp t c rest => objJson [("Type", toString t), ("Code", toString c), ("RestHeader", s!"\"{base64 rest}\"")]
+/-! ## the sampled packet -/
+
+def l2Tree (d : L2) : Json :=
+  obj [("SrcMAC", macLeaf d.srcMAC), ("DstMAC", macLeaf d.dstMAC), ("Vlan", num d.vlan), ("EtherType", num d.etherType)]
+
+def l3Tree : L3 → Json
+  | .none => .null
+  | .v4 h => obj [("Version", num h.version), ("TOS", num h.tos), ("TotalLen", num h.totalLen),
+      ("ID", num h.id), ("Flags", num h.flags), ("FragOff", num h.fragOff), ("TTL", num h.ttl),
+      ("Protocol", num h.protocol), ("Checksum", num h.checksum),
+      ("Src", ipStringLeaf h.src), ("Dst", ipStringLeaf h.dst)]
+  | .v6 h => obj [("Version", num h.version), ("TrafficClass", num h.trafficClass),
+      ("FlowLabel", num h.flowLabel), ("PayloadLen", num h.payloadLen), ("NextHeader", num h.nextHeader),
+      ("HopLimit", num h.hopLimit), ("Src", ipStringLeaf h.src), ("Dst", ipStringLeaf h.dst)]
+
+def l4Tree : L4 → Json
+  | .none => .null
+  | .icmp t c rest => obj [("Type", num t), ("Code", num c), ("RestHeader", bytesLeaf rest)]
   | .tcp s d off res fl => numObj ["SrcPort", "DstPort", "DataOffset", "Reserved", "Flags"] [s, d, off, res, fl]
   | .udp s d => numObj ["SrcPort", "DstPort"] [s, d]
 
-def pktJson (p : Pkt) : String := objJson [("L2", l2Json p.l2), ("L3", l3Json p.l3), ("L4", l4Json p.l4)]
+def pktTree (p : Pkt) : Json := obj [("L2", l2Tree p.l2), ("L3", l3Tree p.l3), ("L4", l4Tree p.l4)]
+
+/-! ## samples -/
+
+def extRouterTree (x : ExtRouter) : Json :=
+  obj [("NextHop", ipLeaf x.nextHop), ("SrcMask", num x.srcMask), ("DstMask", num x.dstMask)]
+
+def extSwitchTree (s : ExtSwitch) : Json :=
+  numObj ["SrcVlan", "SrcPriority", "DstVlan", "DstPriority"] [s.srcVlan, s.srcPriority, s.dstVlan, s.dstPriority]
+
+/-- a map entry that is present -/
+def entry {α : Type} (k : String) (f : α → Json) : Option α → List (String × Json)
+  | none => []
+  | some x => [(k, f x)]
 
 /-- keys of an `encoding/json` map are sorted: ExtRouter < ExtSwitch < RawHeader -/
-def flowRecsJson (m : FlowRecs) : Option String := do
-  let rtr ← match m.rtr with
-    | none => some []
-    | some x => (ipJson x.nextHop).map fun ip =>
-        [("ExtRouter", objJson [("NextHop", ip), ("SrcMask", toString x.srcMask), ("DstMask", toString x.dstMask)])]
-  let sw := match m.sw with
-    | none => []
-    | some s => [("ExtSwitch", numObj ["SrcVlan", "SrcPriority", "DstVlan", "DstPriority"]
-        [s.srcVlan, s.srcPriority, s.dstVlan, s.dstPriority])]
-  let raw := match m.raw with
-    | none => []
-    | some p => [("RawHeader", pktJson p)]
-  pure (objJson (rtr ++ sw ++ raw))
+def flowRecsTree (m : FlowRecs) : Json :=
+  obj (entry "ExtRouter" extRouterTree m.rtr ++ entry "ExtSwitch" extSwitchTree m.sw ++ entry "RawHeader" pktTree m.raw)
 
-def flowSampleJson (s : FlowSample) : Option String := do
-  let recs ← flowRecsJson s.recs
-  pure (objJson [("SequenceNo", toString s.seqNo), ("SourceID", toString s.sourceID),
-    ("SamplingRate", toString s.samplingRate), ("SamplePool", toString s.samplePool), ("Drops", toString s.drops),
-    ("Input", toString s.input), ("Output", toString s.output), ("RecordsNo", toString s.recordsNo),
-    ("Records", recs)])
+def flowSampleTree (s : FlowSample) : Json :=
+  obj [("SequenceNo", num s.seqNo), ("SourceID", num s.sourceID),
+    ("SamplingRate", num s.samplingRate), ("SamplePool", num s.samplePool), ("Drops", num s.drops),
+    ("Input", num s.input), ("Output", num s.output), ("RecordsNo", num s.recordsNo),
+    ("Records", flowRecsTree s.recs)]
 
 def names (l : Layout) : List String := l.map (·.1)
 
 /-- sorted keys: EthInt < GenInt < Proc < TRInt < VGInt < Vlan -/
-def counterRecsJson (m : CounterRecs) : String :=
-  let one (k : String) (l : Layout) (o : Option (List Nat)) : List (String × String) :=
-    match o with
-    | none => []
-    | some vs => [(k, numObj (names l) vs)]
-  objJson (one "EthInt" ethIntLayout m.ethInt ++ one "GenInt" genIntLayout m.genInt ++ one "Proc" procLayout m.proc ++
-           one "TRInt" trIntLayout m.trInt ++ one "VGInt" vgIntLayout m.vgInt ++ one "Vlan" vlanLayout m.vlan)
+def counterRecsTree (m : CounterRecs) : Json :=
+  obj (entry "EthInt" (numObj (names ethIntLayout)) m.ethInt ++ entry "GenInt" (numObj (names genIntLayout)) m.genInt ++
+       entry "Proc" (numObj (names procLayout)) m.proc ++ entry "TRInt" (numObj (names trIntLayout)) m.trInt ++
+       entry "VGInt" (numObj (names vgIntLayout)) m.vgInt ++ entry "Vlan" (numObj (names vlanLayout)) m.vlan)
 
-def counterSampleJson (c : CounterSample) : String :=
-  objJson [("SequenceNo", toString c.seqNo), ("SourceIDType", toString c.sourceIDType),
-    ("SourceIDIdx", toString c.sourceIDIdx), ("RecordsNo", toString c.recordsNo), ("Records", counterRecsJson c.recs)]
+def counterSampleTree (c : CounterSample) : Json :=
+  obj [("SequenceNo", num c.seqNo), ("SourceIDType", num c.sourceIDType),
+    ("SourceIDIdx", num c.sourceIDIdx), ("RecordsNo", num c.recordsNo), ("Records", counterRecsTree c.recs)]
 
-/-- `json.Marshal(datagram)` with `ColTime` = 0; `none` = marshal error -/
-def datagramJson (d : Datagram) : Option String := do
-  let ss ← d.samples.mapM flowSampleJson
-  let ip ← ipJson d.ip
-  pure (objJson [("Version", toString d.version), ("IPVersion", toString d.ipVersion),
-    ("AgentSubID", toString d.agentSubID), ("SequenceNo", toString d.seqNo), ("SysUpTime", toString d.sysUpTime),
-    ("SamplesNo", toString d.samplesNo), ("Samples", "[" ++ ",".intercalate ss ++ "]"),
-    ("Counters", "[" ++ ",".intercalate (d.counters.map counterSampleJson) ++ "]"),
-    ("IPAddress", ip), ("ColTime", "0")])
+/-- **the sFlow message**: the datagram header fields, the flow samples and the counter samples in decode
+order, the agent address, and `ColTime` (= 0 here) -/
+def sflowTree (d : Datagram) : Json :=
+  obj [("Version", num d.version), ("IPVersion", num d.ipVersion),
+    ("AgentSubID", num d.agentSubID), ("SequenceNo", num d.seqNo), ("SysUpTime", num d.sysUpTime),
+    ("SamplesNo", num d.samplesNo), ("Samples", .arr (listOf (d.samples.map flowSampleTree))),
+    ("Counters", .arr (listOf (d.counters.map counterSampleTree))),
+    ("IPAddress", ipLeaf d.ip), ("ColTime", num 0)]
+
+/-- every `net.IP` in the datagram can be marshalled (the agent address and the next hops) -/
+def marshalOk (d : Datagram) : Bool :=
+  ipOk d.ip && d.samples.all fun s => match s.recs.rtr with | none => true | some x => ipOk x.nextHop
+
+/-- `json.Marshal(datagram)` with `ColTime` = 0; `none` = marshal error (nothing is published) -/
+def sflowJson? (d : Datagram) : Option Bytes :=
+  if marshalOk d then some (render (sflowTree d)) else none
+
+/-- the rendered octets as text (all ASCII) — driver only -/
+def text (b : Bytes) : String := String.ofList (b.map fun x => Char.ofNat x.toNat)
 
 def errClass : Err → String
   | .eof => "eof" | .version => "version" | .noLen => "nolen" | .hdrLen => "hdrlen" | .rtrLen => "rtrlen"
